@@ -183,6 +183,14 @@ pub fn limit_texts() -> Vec<String> {
         (u64::MAX as u128) * 1_000_000_000,
         1u128 << 127,
     ];
+    // fractions with as many digits as any table or accumulator could be sized for, and one more
+    for digits in [8usize, 9, 10, 17, 18, 19, 20, 21, 38, 39, 40] {
+        for unit in ["ns", "us", "ms", "s", "m", "h"] {
+            v.push(format!("0.{}{unit}", "1234567891".repeat(4)[..digits].to_string()));
+            v.push(format!("1h0.{}{unit}", format!("25{}", "0".repeat(digits - 2))));
+            v.push(format!("-1.{}{unit}", "9".repeat(digits)));
+        }
+    }
     for l in limits {
         for (unit, scale) in [("ns", 1u128), ("us", 1_000), ("ms", 1_000_000), ("s", 1_000_000_000), ("m", 60_000_000_000), ("h", 3_600_000_000_000)] {
             let n = l / scale;
@@ -285,7 +293,7 @@ pub fn generate(tier: Tier, rng: &mut Rng) -> Vec<Case> {
             push(&mut out, &default, &format!("duration({})", str_literal(&m)), Some(want), vec!["malformed"]);
         }
     }
-    for m in ["", "-", "s", ".s", "-.s", "1", "-1", "00", "1.5", "infs", "nans", "-infs", "inf", "NaNs", "1e3s", "1E3s", "0x10s", "1_000s", "１s", "1 s", "1s 2s", "1d", "1w", "1y", "9999999999h", "9223372036854775808ns", "-9223372036854775809ns", "9223372036854775807ns", "-9223372036854775808ns", "2562047h47m16.854775807s", "2562047h47m16.854775808s", "-2562047h47m16.854775808s", "-2562047h47m16.854775809s", "0.000000000000000001h", "1.9999999999999999999999999ns", "99999999999999999999999999999999ns", "0", "-0", "0s", "-0s", "0h0m0s", "1.s", ".5s", "1.1ns"] {
+    for m in ["", "-", "s", ".s", "-.s", "1", "-1", "00", "1.5", "infs", "nans", "-infs", "inf", "NaNs", "1e3s", "1E3s", "0x10s", "1_000s", "１s", "1 s", "1s 2s", "1d", "1w", "1y", "9999999999h", "9223372036854775808ns", "-9223372036854775809ns", "9223372036854775807ns", "-9223372036854775808ns", "2562047h47m16.854775807s", "2562047h47m16.854775808s", "-2562047h47m16.854775808s", "-2562047h47m16.854775809s", "0.000000000000000001h", "1.9999999999999999999999999ns", "99999999999999999999999999999999ns", "0", "-0", "0s", "-0s", "0h0m0s", "1.s", ".5s", "1.1ns", "1h.m", "1h30m.s", ".s.s", ".ns", "1h.", "1.h.", "..s", "1..s", "-1h30m", "-1m1s", "-1h0m0.000000001s", "-0h1s", "1h-30m", "-1h-30m"] {
         let want = match ref_parse(m) {
             Some(ns) => ok(&format!("(dur {ns})")),
             None => FERR.to_string(),
